@@ -53,6 +53,21 @@ def doRun (s : St) (ts : List String) : St × String :=
         let r := Sched.run BarS.lts p (BarS.init n gens (kind = "spiny"))
         finish s r s!"step={r.st.step} acts={r.st.actions}"
 
+def showExplore (r : Nat × Bool) : String :=
+  s!"explored={r.1} complete={if r.2 then 1 else 0} violated=0"
+
+def doExplore (s : St) (ts : List String) : St × String :=
+  match Sched.parseParams ts with
+  | none => (s, "bad-op")
+  | some p =>
+    if !p.sched.isEmpty then (s, "bad-op") else
+    match s.sc with
+    | .none => (s, "bad-op")
+    | .sem v threads => (s, showExplore (Sched.explore Sem.lts p (Sem.init v threads)))
+    | .barrier kind n gens =>
+      if kind = "mutex" then (s, showExplore (Sched.explore BarM.lts p (BarM.init n gens)))
+      else (s, showExplore (Sched.explore BarS.lts p (BarS.init n gens (kind = "spiny"))))
+
 def step (s : St) (ts : List String) : St × String :=
   match ts with
   | ["sem", v] =>
@@ -71,6 +86,7 @@ def step (s : St) (ts : List String) : St × String :=
       | _, _ => (s, "bad-op")
     else (s, "bad-op")
   | "run" :: rest => doRun s rest
+  | "explore" :: rest => doExplore s rest
   | ["sched"] => (s, Drv.showCsv s.lastResolved.toList)
   | _ => (s, "bad-op")
 
